@@ -112,6 +112,37 @@ def const_case(rng, i):
     return src, sx, n
 
 
+def check_words(ck, tier):
+    """E380 exactly for the words whose aligned size exceeds the declared size: every word of 1-4
+    members of 1/2/4/8 bytes at every declared size (used by C10 and C11)"""
+    import itertools
+    wp = {1: "u8", 2: "i16", 4: "u32", 8: "i64"}
+    cases, items = [], []
+    k = 0
+    for ln in range(1, 5 if tier == "quick" else 6):
+        for seq in itertools.product((1, 2, 4, 8), repeat=ln):
+            for bits in (8, 16, 32, 64, 128):
+                cid = "x%d" % k; k += 1
+                cases.append((cid, "word%d W\n{\n%s}\nfn main()\n{\n}\n" % (bits, "".join("\tm%d: %s,\n" % (i, wp[b]) for i, b in enumerate(seq)))))
+                items.append(("layout", cid, "(word %d (%s))" % (bits // 8, " ".join(str(b) for b in seq))))
+    impl = C.run_harness("front", cases, ck.work + "/words", timeout=1800)
+    model = C.run_model(items, ck.work + "/words")
+    bad = 0
+    for cid, src in cases:
+        f = impl.get(cid, ["missing"]); m = model.get(cid, "")
+        if not (f[0].startswith("ok") or f[0].startswith("err codes=")):
+            ck.violation(C.failure_key(f[0]), "compiler failed: " + f[0][:200], src); continue
+        fits = "accepted=true" in m
+        if f[0].startswith("ok") and not fits:
+            bad += 1; ck.violation("oversized-word-accepted", "a word whose aligned size exceeds its declared size is accepted (no E380)", "source:\n%s\nmodel: %s" % (src, m))
+        elif f[0].startswith("err") and fits:
+            bad += 1; ck.violation("valid-layout-rejected", "a word that fits its declared size is rejected: " + f[0], "source:\n%s\nmodel: %s" % (src, m))
+        elif f[0].startswith("err") and "380" not in f[0]:
+            bad += 1; ck.violation("E380-missing", "a word larger than declared is rejected without E380: " + f[0], src)
+    ck.log("words: %d declarations, %d problems" % (len(cases), bad))
+    return len(cases), bad
+
+
 def run(tier):
     ck = C.Check("C10", tier)
     proof_ok = ck.prove(extra_trusted=["LLVM's StructLayout algorithm and the ABI alignments of the module data layout as transcribed in Model/Layout.v (checked against opt-14 on sample types and against every executed program of this check)"])
